@@ -43,13 +43,16 @@ def al(name, target):
 def yaml_of(n):
     t = n["t"]
     pre = ("&%s " % n["a"]) if n.get("a") else ""
+    if n.get("tag"):
+        pre += n["tag"] + " "          # a custom tag on an anchored / merged / aliased container
     if t == "sc":
         return pre + n["s"]
     if t == "al":
         return "*" + n["name"]
     if t == "sq":
         return pre + "[" + ", ".join(yaml_of(x) for x in n["items"]) + "]"
-    return pre + "{" + ", ".join("%s: %s" % (k, yaml_of(v)) for k, v in n["es"]) + "}"
+    ka = n.get("ka") or {}             # anchors on KEYS: {&k name: web}
+    return pre + "{" + ", ".join("%s%s: %s" % (("&%s " % ka[k]) if k in ka else "", k, yaml_of(v)) for k, v in n["es"]) + "}"
 
 
 def coq_of(n):
@@ -227,6 +230,8 @@ def names_in(n):
     out = set()
     if t == "al":
         return {n["name"]}
+    if t == "mp":
+        out |= set((n.get("ka") or {}).values())
     for c in (n["items"] if t == "sq" else [v for _, v in n["es"]] if t == "mp" else []):
         if c.get("a"):
             out.add(c["a"])
@@ -267,7 +272,10 @@ class Gen:
             return self.reg(sc(self.scalar()), 0.3)
         if r < 0.7:
             items = [self.value(depth + 1) for _ in range(rng.randrange(0, 4))]
-            return self.reg(sq(items), 0.3)
+            node = sq(items)
+            if rng.random() < 0.2:
+                node["tag"] = "!lst"
+            return self.reg(node, 0.3)
         return self.map(depth + 1)
 
     def reg(self, node, p):
@@ -322,7 +330,16 @@ class Gen:
                 mv = sq([al(n, t) for n, t in picks])
             pos = rng.randrange(0, len(es) + 1) if self.adv else 0
             es.insert(pos, ["<<", mv])
-        return self.reg(mp(es), 0.5)
+        node = mp(es)
+        # anchors on keys: a later alias to one stands for the key's text
+        for k, _ in es:
+            if k != "<<" and rng.random() < 0.12:
+                nm = self.fresh()
+                node.setdefault("ka", {})[k] = nm
+                self.anchors.append((nm, sc(k)))
+        if rng.random() < 0.2:
+            node["tag"] = rng.choice(["!cfg", "!t"])     # custom-tagged map (also as merge / alias target)
+        return self.reg(node, 0.5)
 
     def document(self):
         rng = self.rng
@@ -360,7 +377,16 @@ def fixed_docs():
     d5 = mp([["base", e1], ["first", mp([["<<", al("d", e1)], ["v", s1], ["w", al("s", s1)]])],
              ["other", e2], ["second", mp([["<<", al("d", e2)], ["v", s2], ["w", al("s", s2)]])],
              ["l", sq([al("d", e2), al("s", s2)])]])
-    return [d1, d2, d3, d4, d5, mp([]), mp([["k", sc("null")]])]
+    # anchors on keys, and a custom-tagged anchored map as merge and alias target
+    kn, kp = sc("name"), sc("port")
+    dflt = mp([["retries", sc(3)]], "d")
+    base = mp([["host", sc("db")], ["port", sc(5432)]], "base"); base["tag"] = "!cfg"
+    svc = mp([["name", sc("web")], ["label", al("k", kn)], ["conf", mp([["<<", al("d", dflt)], ["port", sc(80)]])], ["expose", al("p", kp)],
+              ["one", mp([["<<", al("base", base)], ["port", sc(6000)]])], ["same", al("base", base)]])
+    svc["ka"] = {"name": "k"}
+    svc["es"][2][1]["ka"] = {"port": "p"}
+    d6 = mp([["defaults", dflt], ["base", base], ["svc", svc]])
+    return [d1, d2, d3, d4, d5, d6, mp([]), mp([["k", sc("null")]])]
 
 
 # --------------------------------------------------------------------------
@@ -565,6 +591,8 @@ def run(chk):
         stats["with_merge"] += 1 if "<<:" in text else 0
         stats["with_merge_list"] += 1 if "<<: [" in text else 0
         stats["with_alias_value"] += 1 if re.search(r"[a-z0-9]: \*", text) else 0
+        stats["with_key_anchor"] = stats.get("with_key_anchor", 0) + (1 if re.search(r"[{,] ?&\w+ \w+:", text) else 0)
+        stats["with_custom_tag"] = stats.get("with_custom_tag", 0) + (1 if re.search(r"!(cfg|t|lst) ", text) else 0)
         defs = re.findall(r"&(a\d+|[ds]) ", text)
         stats["with_anchor_redefined"] = stats.get("with_anchor_redefined", 0) + (1 if len(defs) != len(set(defs)) else 0)
         if any(r is None for r in rs):
@@ -681,6 +709,7 @@ def run(chk):
              "(`<<` first, disjoint list sources) and an adversarial one (`<<` anywhere, overlapping sources, scalar values spelled like key names); "
              "for each document up to 14 read paths drawn from the independently resolved ground truth (leaves and containers) plus missing keys, "
              "each read by PATH, by explode(.) | PATH and from -o=json . ; explode(.) is also printed as YAML and scanned for & * <<. "
+             "Anchors also sit on map KEYS (an alias to one reads the key's text) and anchored maps / sequences carry custom tags (!cfg ...) as merge and alias targets. "
              "About a third of the documents define an anchor name more than once (aliases and merges after each definition), and streams of 2-3 "
              "documents re-use the same anchor names in every document (oracle only: the anchor table of yaml.v3 / yq's anchorMap is tested, not modelled). "
              "A case is one (document, path); non-trivial when the document contains an alias; distinct by text.",
